@@ -26,6 +26,7 @@ class XMLReader(TextToModel):
         self.name_feature: dict[str, Feature] = {}
 
     def transform(self) -> FeatureModel:
+        self.name_feature = {}
         rootcounter = 1
         tree = ElementTree.parse(self.path)
         xml_root = tree.getroot()
